@@ -21,13 +21,16 @@ HdrBadJs == Rng(Hdr.badjs)
 HdrMax == Hdr.max
 HdrActs == Hdr.acts
 HdrCondCodes == Hdr.codes
+HdrOneShot == Rng(Hdr.oneshot)
 
 VARIABLES mem, ro, impl, l
 vars == <<mem, ro, impl, l>>
 
 \* impl: [state, via, check, created] of the trace being validated
 
-OpOf(e) == [op |-> e.op, loc |-> e.loc, id |-> e.id, rid |-> e.rid, val |-> Norm(e.val),
+\* a cron tick is the event {"trigger!": id} sent to the job's location
+OpOf(e) == [op |-> IF e.op = "Tick" THEN "ProcessEvent" ELSE e.op, loc |-> e.loc, id |-> e.id, rid |-> e.rid,
+            val |-> IF e.op = "Tick" THEN Obj("trigger!" :> IdVal(e.id)) ELSE Norm(e.val),
             inh |-> e.inh, wk |-> e.wk, rk |-> e.rk, now |-> e.now, flag |-> e.flag,
             names |-> Rng(e.names), hooked |-> impl.via # ""]
 
@@ -73,13 +76,13 @@ FreshOk(op, lr) ==
   (op.op \in {"AddFact", "AddRule"} /\ op.id = "" /\ lr.c = "ok" /\ BangKeys(op.val) = {})
      => op.rid \notin DOMAIN mem[op.loc]
 
-NoImpl == [state |-> "", via |-> "", check |-> FALSE, created |-> {}]
+NoImpl == [state |-> "", via |-> "", check |-> FALSE, created |-> {}, cronkind |-> ""]
 Init == l = 2 /\ mem = <<>> /\ ro = <<>> /\ impl = NoImpl
 
 Reset(e) ==
   /\ mem' = [a \in Rng(e.locs) |-> <<>>]
   /\ ro' = [a \in Rng(e.locs) |-> FALSE]
-  /\ impl' = [state |-> e.state, via |-> e.via, check |-> e.check, created |-> {}]
+  /\ impl' = [state |-> e.state, via |-> e.via, check |-> e.check, created |-> {}, cronkind |-> e.cronkind]
 
 \* the outcomes the specification allows whose response agrees with the logged line
 RespExplained(e) ==
@@ -108,8 +111,25 @@ CrashOk(e, post) ==
   /\ \A k \in DOMAIN e.crashes : ImageOk(e.crashes[k], mem, post)
   /\ Len(e.crashes) > 0 => FinalImageOk(e.crashes[Len(e.crashes)], post)
 
+\* C15: what is registered with the cron service (through sys.System).  Every scheduled rule that exists
+\* has to be registered (CronHas); strictly, nothing else is (CronOnly): a registration that outlives its
+\* rule is the recorded defect D_CRON_STALE.
+SchedIn(m, ids) == {i \in ids : IsRuleItem(m[i]) /\ Scheduled(RuleBody(m[i]))}
+RECURSIVE SumCard(_, _)
+SumCard(f, D) == IF D = {} THEN 0 ELSE LET a == CHOOSE x \in D : TRUE IN Cardinality(f[a]) + SumCard(f, D \ {a})
+CronHas(e, post) ==
+  impl.via = "" \/
+  LET req == [a \in DOMAIN post |-> SchedIn(post[a], Vis(post[a], e.now))]
+  IN IF impl.cronkind = "internal" THEN e.cron_n >= SumCard(req, DOMAIN post)
+     ELSE \A a \in DOMAIN post : req[a] \subseteq Rng(e.cron[a])
+CronOnly(e, post) ==
+  impl.via = "" \/
+  LET all == [a \in DOMAIN post |-> SchedIn(post[a], DOMAIN post[a])]
+  IN IF impl.cronkind = "internal" THEN e.cron_n <= SumCard(all, DOMAIN post)
+     ELSE \A a \in DOMAIN post : Rng(e.cron[a]) \subseteq all[a]
+
 \* ... and whose state agrees with the logged storage content
-Explained(e) == {o \in RespExplained(e) : DiskOk(o.mem, e) /\ CrashOk(e, o.mem)}
+Explained(e) == {o \in RespExplained(e) : DiskOk(o.mem, e) /\ CrashOk(e, o.mem) /\ CronHas(e, o.mem)}
 
 \* sys.System: with existence checking on, a location that was never created
 \* answers not-found to every request and is not created by it; CreateLocation
@@ -118,7 +138,12 @@ Uncreated(e) == impl.check /\ e.op \notin {"CreateLocation", "BadRequest"}
                 /\ PropId("", "createdAt") \notin DOMAIN mem[e.loc]
 SysOutcomes(e) ==
   LET disk == [a \in DOMAIN mem |-> Rng(e.disk[a])]
-  IN IF e.op = "CreateLocation"
+  IN IF e.op = "Restart"
+     THEN \* a new System over the same storage: nothing changes; with a cron that does not persist its
+          \* jobs, every scheduled rule is registered again once its location is loaded
+          IF e.res.c = "ok" /\ DiskOk(mem, e) /\ CronHas(e, mem)
+          THEN {[mem |-> mem, ro |-> [a \in DOMAIN ro |-> FALSE], created |-> {}]} ELSE {}
+     ELSE IF e.op = "CreateLocation"
      THEN LET marker == PropId("", "createdAt")
               m2 == IF marker \in DOMAIN mem[e.loc] THEN mem
                     ELSE SetLoc(mem, e.loc, PutItem(mem[e.loc], marker, Item(Norm(e.val), 0)))
@@ -150,7 +175,7 @@ NextReset(i) ==
   THEN CHOOSE j \in (i+1)..Len(Trace) : Trace[j].ev = "reset" /\ \A k \in (i+1)..(j-1) : Trace[k].ev # "reset"
   ELSE Len(Trace) + 1
 
-IsSysLevel(e) == e.op = "CreateLocation" \/ Uncreated(e) \/ (impl.check /\ e.op = "Clear")
+IsSysLevel(e) == e.op \in {"CreateLocation", "Restart"} \/ Uncreated(e) \/ (impl.check /\ e.op = "Clear")
 
 \* C06: a failing storage call makes the operation report an error; what memory and storage hold
 \* afterwards is not specified, so the driver ends the trace there
@@ -162,8 +187,16 @@ AcceptFault(e) ==
 Accept(e) ==
   /\ ~e.fault
   /\ ~IsSysLevel(e)
-  /\ Explained(e) # {}
-  /\ \E o \in Explained(e) : mem' = o.mem /\ ro' = o.ro
+  /\ \E o \in Explained(e) : CronOnly(e, o.mem) /\ mem' = o.mem /\ ro' = o.ro
+  /\ l' = l + 1 /\ UNCHANGED impl
+
+\* explained, except that a registration has outlived its rule
+AcceptStale(e) ==
+  /\ ~e.fault
+  /\ ~IsSysLevel(e)
+  /\ Explained(e) # {} /\ \A o \in Explained(e) : ~CronOnly(e, o.mem)
+  /\ \E o \in Explained(e) : /\ mem' = o.mem /\ ro' = o.ro
+                               /\ TLCSet(3, TLCGet(3) \cup {<<l, "D_CRON_STALE">>})
   /\ l' = l + 1 /\ UNCHANGED impl
 
 AcceptSys(e) ==
@@ -203,6 +236,7 @@ Next ==
      \/ Trace[l].ev = "op" /\ Accept(Trace[l])
      \/ Trace[l].ev = "op" /\ AcceptDev(Trace[l])
      \/ Trace[l].ev = "op" /\ AcceptSys(Trace[l])
+     \/ Trace[l].ev = "op" /\ AcceptStale(Trace[l])
      \/ Trace[l].ev = "op" /\ AcceptFault(Trace[l])
      \/ Trace[l].ev = "op" /\ Reject(Trace[l])
 
